@@ -58,11 +58,13 @@ ASSUMPTIONS = [
 
 EXPECTED_PROBES = ['relevance_with_precomputed_distances', 'non_contiguous_caller_arrays', 'fit_with_identifiers_unlike_positions', 'best_is_last_iteration_and_it_swapped', 'prune_on_an_already_used_object', 'accuracy_zero_in_every_iteration', 'best_iteration_is_not_last', 'learn_swapped_rows', 'more_fits_than_n_iterations', 'nan_weight_no_relevance_verdict', 'prototype_index_drawn', 'prune_discarded_rows', 'prune_dropped_a_relevant_row', 'tie_for_best_accuracy', 'unique_winner_is_first_of_conquest_order', 'winner_is_first_of_conquest_order']
 
+SLOW_ARMS = ("learn_bigval",)
+
 
 def arms(tier):
     if tier == "thorough":
-        return [("learn_adv", 1_800_000), ("learn_uni", 700_000), ("prune", 1_000_000), ("relevance", 1_500_000), ("seq", 900_000), ("learn_bigval", 40_000)]
-    return [("learn_adv", 60_000), ("learn_uni", 25_000), ("prune", 40_000), ("relevance", 60_000), ("seq", 30_000), ("learn_bigval", 1_500)]
+        return [("learn_adv", 1_800_000), ("learn_uni", 700_000), ("prune", 1_000_000), ("relevance", 1_500_000), ("seq", 900_000), ("learn_bigval", 16_000)]
+    return [("learn_adv", 60_000), ("learn_uni", 25_000), ("prune", 40_000), ("relevance", 60_000), ("seq", 30_000), ("learn_bigval", 480)]
 
 
 def hist_slice(tier):
